@@ -316,9 +316,13 @@ Dissociate(st, a) ==
 (***************************************************************************)
 (* x/delegation/keeper/abci.go: EndBlock                                    *)
 (***************************************************************************)
-\* GetPendingUndelegationRecKeys: PREFIX iteration with hex(height), no delimiter
+\* GetPendingUndelegationRecKeys: prefix iteration with hex(height) + "/" - exactly the keys of that height.
+\* (Before the fix "pending-undelegation lookup includes the key delimiter in its prefix" the prefix was
+\* hex(height) alone and matched every completion height whose hex digits merely START with those of the
+\* height; PREFIXLOOKUP = TRUE keeps that defect expressible: MC_LedgerGenesis then violates InvNotEarly.)
+PREFIXLOOKUP == FALSE
 PendingDue(st, h) ==
-  {k \in DOMAIN st.idxP : IsPrefixSeq(HexDigits(h), HexDigits(k[1]))}
+  {k \in DOMAIN st.idxP : IF PREFIXLOOKUP THEN IsPrefixSeq(HexDigits(h), HexDigits(k[1])) ELSE k[1] = h}
 
 \* byte order of "hex(complete)/hex(nonce)"; '/' (0x2f) sorts before every hex digit
 PKeyLess(k1, k2) ==
@@ -540,6 +544,9 @@ Apply(st, ev, a) ==
     [] ev = "NstUpdate"   -> UpdateNSTBalance(st, a)
     [] ev = "ReleaseHold" -> ReleaseHold(st, a.k)
     [] ev = "EndBlock"    -> LET r == EndBlock(st) IN [st |-> NextBlock(r.st), err |-> r.err]
+    \* the chain is (re)started from a genesis document carrying this module state at height a.h (an
+    \* export/import with a new initial height): the stores are what InitGenesis loads, only the height moves
+    [] ev = "SetHeight"   -> IF a.h >= 1 THEN Ok([st EXCEPT !.h = a.h]) ELSE Fail(st, "bad height")
 
 (***************************************************************************)
 (* Coverage goals: named branches of the transcription above, as predicates *)
